@@ -65,6 +65,17 @@ def asym_psf(rng, s, s1=None, sigma=1.3):
     return p / p.sum()
 
 
+def smooth_asym_psf(rng, s, s1=None):
+    """asymmetric, off-centre-peaked but smooth stamp that has decayed (≥ 3.2σ) at its edges"""
+    s1 = s if s1 is None else s1
+    if s * s1 == 1:
+        return np.ones((1, 1))
+    sig = max(0.45, min(s, s1) / 2 / float(rng.uniform(3.4, 4.5)))
+    p = gauss_psf(s, sig, s1, dx=float(rng.uniform(-0.3, 0.3)) * sig, dy=float(rng.uniform(-0.3, 0.3)) * sig, q=float(rng.uniform(0.8, 1.0)))
+    p = p + float(rng.uniform(0.1, 0.4)) * gauss_psf(s, 0.8 * sig, s1, dx=float(rng.uniform(-0.6, 0.6)) * sig, dy=float(rng.uniform(-0.6, 0.6)) * sig)
+    return p / p.sum()
+
+
 def needed_n(scene):
     """Sersic indices whose amplitude vectors the scene needs (as the code will see them)."""
     ns = []
